@@ -23,6 +23,7 @@ import (
 	"github.com/facebookincubator/tacquito/cmds/server/config/secret/prefix"
 	"github.com/facebookincubator/tacquito/cmds/server/handlers"
 	"github.com/facebookincubator/tacquito/cmds/server/loader"
+	jsonloader "github.com/facebookincubator/tacquito/cmds/server/loader/json"
 	yamlloader "github.com/facebookincubator/tacquito/cmds/server/loader/yaml"
 	xbcrypt "golang.org/x/crypto/bcrypt"
 	"gopkg.in/yaml.v3"
@@ -134,6 +135,7 @@ func (s *Source) Publish(c config.ServerConfig) { s.ch <- c }
 type Options struct {
 	Net      *simnet.Net
 	ViaYAML  bool // render the configuration to YAML and load it with the real yaml loader
+	ViaJSON  bool // render to JSON and load it with the real json loader
 	Proxy    bool
 	Recover  bool // recover handler panics in the tap (C14)
 	KeepLogs bool // keep logger entries (C18)
@@ -150,6 +152,7 @@ type Ref struct {
 	Keys   *KeyStore
 	Src    *Source
 	YAML   *yamlloader.YAML
+	JSON   *jsonloader.JSON
 	Ctx    context.Context
 	cancel context.CancelFunc
 	// LoadedUpdates counts the loader's "updated all prefix filters" messages.
@@ -207,7 +210,10 @@ func Start(cfg config.ServerConfig, opt Options) (*Ref, error) {
 	var src interface {
 		Config() chan config.ServerConfig
 	}
-	if opt.ViaYAML {
+	if opt.ViaJSON {
+		r.JSON = jsonloader.New()
+		src = r.JSON
+	} else if opt.ViaYAML {
 		r.YAML = yamlloader.New()
 		src = r.YAML
 	} else {
@@ -251,7 +257,15 @@ func (r *Ref) Publish(cfg config.ServerConfig) error {
 	r.loadedMu.Lock()
 	before := r.loaded
 	r.loadedMu.Unlock()
-	if r.YAML != nil {
+	if r.JSON != nil {
+		doc, err := json.Marshal(cfg)
+		if err != nil {
+			return err
+		}
+		if err := r.JSON.Unmarshal(doc); err != nil {
+			return fmt.Errorf("json loader refused the configuration: %w", err)
+		}
+	} else if r.YAML != nil {
 		doc, err := yaml.Marshal(cfg)
 		if err != nil {
 			return err
@@ -262,11 +276,37 @@ func (r *Ref) Publish(cfg config.ServerConfig) error {
 	} else {
 		r.Src.Publish(cfg)
 	}
+	r.waitLoaded(before)
+	return nil
+}
+
+func (r *Ref) waitLoaded(before int) {
 	r.loadedMu.Lock()
 	for r.loaded == before {
 		r.loadedC.Wait()
 	}
 	r.loadedMu.Unlock()
+}
+
+// PublishDoc feeds a raw document to the real yaml/json loader object (what the
+// file watcher does on every change). On success it waits for the loader.
+func (r *Ref) PublishDoc(doc []byte) error {
+	r.loadedMu.Lock()
+	before := r.loaded
+	r.loadedMu.Unlock()
+	var err error
+	switch {
+	case r.JSON != nil:
+		err = r.JSON.Unmarshal(doc)
+	case r.YAML != nil:
+		err = r.YAML.Unmarshal(doc)
+	default:
+		return fmt.Errorf("PublishDoc needs ViaYAML or ViaJSON")
+	}
+	if err != nil {
+		return err
+	}
+	r.waitLoaded(before)
 	return nil
 }
 
